@@ -22,6 +22,7 @@
 #include "daemon/linux-main.h"
 
 lltd_global_info_t globalInfo;
+void lltd_verif_hook(const char *point, void *iface_ctx) { (void)point; (void)iface_ctx; }
 
 static uint8_t cap[16384];
 static size_t cap_len;
